@@ -3,6 +3,7 @@ package gen
 import (
 	"encoding/json"
 	"fmt"
+	"reflect"
 	"sort"
 	"strconv"
 	"strings"
@@ -131,4 +132,69 @@ func RenderValueString(v interface{}) string {
 	var b strings.Builder
 	RenderValue(&b, v)
 	return b.String()
+}
+
+
+// Scribble overwrites a JSON-like value in place, the way a caller that owns a
+// result may: every scalar becomes a marker, every map gains a key. Results of
+// other calls, and the schema, must be unaffected.
+func Scribble(v interface{}) { scribble(v, nil) }
+
+// ScribbleExcept is Scribble but leaves alone every map and slice that is
+// reachable from keep (values the caller passed in and will use again).
+func ScribbleExcept(v interface{}, keep interface{}) {
+	set := map[uintptr]bool{}
+	collectContainers(keep, set)
+	scribble(v, set)
+}
+
+func collectContainers(v interface{}, set map[uintptr]bool) {
+	switch x := v.(type) {
+	case map[string]interface{}:
+		if x == nil {
+			return
+		}
+		set[reflect.ValueOf(x).Pointer()] = true
+		for _, e := range x {
+			collectContainers(e, set)
+		}
+	case []interface{}:
+		if len(x) == 0 {
+			return
+		}
+		set[reflect.ValueOf(x).Pointer()] = true
+		for _, e := range x {
+			collectContainers(e, set)
+		}
+	}
+}
+
+func scribble(v interface{}, keep map[uintptr]bool) {
+	switch x := v.(type) {
+	case map[string]interface{}:
+		if x == nil || keep[reflect.ValueOf(x).Pointer()] {
+			return
+		}
+		for k, e := range x {
+			switch e.(type) {
+			case map[string]interface{}, []interface{}:
+				scribble(e, keep)
+			default:
+				x[k] = "scribbled"
+			}
+		}
+		x["__scribbled"] = true
+	case []interface{}:
+		if len(x) == 0 || keep[reflect.ValueOf(x).Pointer()] {
+			return
+		}
+		for i, e := range x {
+			switch e.(type) {
+			case map[string]interface{}, []interface{}:
+				scribble(e, keep)
+			default:
+				x[i] = "scribbled"
+			}
+		}
+	}
 }
